@@ -111,6 +111,17 @@ func (ex *Exec) intrinsicInvoke(it types.Type, m *types.Func) intrinsicFn {
 		return func(ex *Exec, s *State, instr ssa.Instruction, args []Val) callOut {
 			return callOut{v: Scalar{ex.opaqueStr(s)}}
 		}
+	case "net.Conn.Write", "io.Writer.Write":
+		// trusted: external I/O; may fail; the buffer is not modified
+		return func(ex *Exec, s *State, instr ssa.Instruction, args []Val) callOut {
+			p := ex.asScalar(args[1])
+			n := s.declare(ex.g.fresh("n"), SBV(64))
+			errv := s.declare(ex.g.fresh("werr"), SIface)
+			ex.assumeWF(s, errv, nil)
+			s.assume(Implies(Eq(errv, TNilI), And(BVSle(BVLit(0, 64), n), BVSle(n, SlLen(p)))))
+			ex.usedAssume["A-IO: net.Conn / io.Writer Write is external I/O: it may fail, returns 0 <= n <= len(p) on success and does not modify p"] = true
+			return callOut{v: TupleV{Scalar{n}, Scalar{errv}}}
+		}
 	case "context.Context.Done":
 		return func(ex *Exec, s *State, instr ssa.Instruction, args []Val) callOut {
 			c := s.declare(ex.g.fresh("ctxdone"), SRef)
@@ -355,11 +366,58 @@ func (ex *Exec) intrinsic(f *ssa.Function) intrinsicFn {
 			b := s.declare(ex.g.fresh("stopped"), SBool)
 			return callOut{v: Scalar{b}}
 		}
+	case "strings.Split":
+		return func(ex *Exec, s *State, instr ssa.Instruction, args []Val) callOut {
+			// trusted (A-STRSPLIT): a fresh, never aliased []string with at least
+			// one element whose join with the same separator is the argument
+			// again (str_join is an uninterpreted function of the slice value
+			// and the separator; the elements themselves are not modelled).
+			a, sep := ex.asScalar(args[0]), ex.asScalar(args[1])
+			base := ex.newRef(s)
+			n := s.declare(ex.g.fresh("nparts"), SBV(64))
+			s.assume(And(BVSle(BVLit(1, 64), n), BVUlt(n, BVLit(1<<40, 64))))
+			r := MkSlice(base, BVLit(0, 64), n, n)
+			s.assume(Eq(Term{fmt.Sprintf("(str_join %s %s)", r.S, sep.S), SStr}, a))
+			ex.usedAssume["A-STRSPLIT: strings.Split(s, sep) returns a fresh slice of at least one part with strings.Join(parts, sep) == s; which strings the parts are is not modelled"] = true
+			return callOut{v: Scalar{r}}
+		}
+	case "strings.Join":
+		return func(ex *Exec, s *State, instr ssa.Instruction, args []Val) callOut {
+			a, sep := ex.asScalar(args[0]), ex.asScalar(args[1])
+			r := Term{fmt.Sprintf("(str_join %s %s)", a.S, sep.S), SStr}
+			ex.assumeWF(s, r, types.Typ[types.String])
+			ex.usedAssume["A-STRSPLIT: strings.Join is a function of the slice value and the separator (elements are not written after the split)"] = true
+			return callOut{v: Scalar{r}}
+		}
+	case "time.After":
+		return func(ex *Exec, s *State, instr ssa.Instruction, args []Val) callOut {
+			// A-TIMER: a channel that becomes ready at some unspecified time
+			// (elapsed time is not modelled): an arbitrary channel reference
+			// whose readiness is unconstrained.
+			c := s.declare(ex.g.fresh("tick"), SRef)
+			ex.assumeRefOK(s, c)
+			ex.usedAssume["A-TIMER: time.After(d) yields a channel that becomes ready at an unspecified time; elapsed time is not modelled"] = true
+			return callOut{v: Scalar{c}}
+		}
 	case "strings.Contains":
 		return func(ex *Exec, s *State, instr ssa.Instruction, args []Val) callOut {
 			// uninterpreted predicate over (string, substring)
 			a, b := ex.asScalar(args[0]), ex.asScalar(args[1])
-			return callOut{v: Scalar{Term{fmt.Sprintf("(str_contains %s %s)", a.S, b.S), SBool}}}
+			r := Term{fmt.Sprintf("(str_contains %s %s)", a.S, b.S), SBool}
+			if lit, ok := ex.g.strLitValue(b); ok && len(lit) == 1 {
+				// trusted (A-CONTAINS): for a one-octet substring the result is
+				// "some octet of s equals it". Both directions of the definition
+				// are assumed for this call: a witness position when true, no
+				// position when false.
+				c := BVLit(uint64(lit[0]), 8)
+				w := s.declare(ex.g.fresh("cw"), SBV(64))
+				s.assume(Implies(r, And(BVUlt(w, StrLen(a)), Eq(StrAt(a, w), c))))
+				q := ex.g.fresh("q_ci")
+				s.assume(Implies(Not(r), Term{fmt.Sprintf("(forall ((%s (_ BitVec 64))) (! (=> (bvult %s %s) (not (= (sat %s %s) %s))) :pattern ((sat %s %s))))",
+					q, q, StrLen(a).S, a.S, q, c.S, a.S, q), SBool}))
+				ex.usedAssume["A-CONTAINS: strings.Contains(s, c) for a one-octet literal c is true exactly when some octet of s equals c"] = true
+			}
+			return callOut{v: Scalar{r}}
 		}
 	}
 	// logging helpers implemented in util (not through the interface)
